@@ -102,10 +102,11 @@ def items(tier):
                     out.append({"shape": SHAPES[(mi + ti * 2 + rep * 5) % len(SHAPES)], "metric": name, "axis": AXES[ai], "type": typ,
                                 "variant": variant, "k": mi + ti + rep, "kind": "netcdf" if (mi + ti + rep) % 4 == 0 else "text"})
     # every diagram drawn with exactly one threshold / quantile (a requirement of some, e.g. droc), default axis, two shapes
+    # (some diagrams also require a single input file, e.g. meteo: with all files and with the first file only)
     for di, name in enumerate(DIAGRAMS):
-        for rep in range(2):
-            out.append({"shape": SHAPES[(di + rep * 4) % len(SHAPES)], "metric": name, "axis": None, "type": "plot", "variant": "one",
-                        "k": di + rep, "kind": "text"})
+        for rep, (shape, first_only) in enumerate([("full2", False), ("full2", True), ("prob2", True), ("prob2", False), ("ens1", False), ("det1", False)]):
+            out.append({"shape": shape, "metric": name, "axis": None, "type": "plot", "variant": "one",
+                        "k": di + rep, "kind": "text", "first_only": first_only})
     # field metrics on the conditional axes with every aggregator and -r edges that leave bins empty
     n = 0
     for fld in ("obs", "fcst"):
@@ -141,6 +142,8 @@ def files_for(ctx, shape, kind, spec=None):
 
 def run_item(ctx, item, paths):
     from .. import drive
+    if item.get("first_only"):
+        paths = list(paths)[:1]
     args = list(paths) + ["-m", item["metric"]]
     if item["axis"] is not None:
         args += ["-x", item["axis"]]
@@ -187,7 +190,7 @@ def check_item(item, ctx):
         return check_generated(item, ctx)
     paths = files_for(ctx, item["shape"], item.get("kind", "text"))
     r, out, args = run_item(ctx, item, paths)
-    ctx.nt((item["metric"], item["axis"], item["type"], item["variant"], item["shape"], item.get("k"), item.get("kind")))
+    ctx.nt((item["metric"], item["axis"], item["type"], item["variant"], item["shape"], item.get("k"), item.get("kind"), item.get("first_only")))
     if item["metric"] in ("ets", "reliability", "mae") and item["type"] in ("plot", "csv"):
         ctx.sample({"combination": {k: item[k] for k in ("metric", "axis", "type", "variant", "shape")}, "outcome": "exception" if r.exc else ("error-exit" if r.exit else "ok")})
     judge(ctx, item, r, out, args)
